@@ -213,6 +213,7 @@ class Engine:
     self.path_outcomes = []
     self.axioms = []             # global hypotheses (ghost function axioms, lemmas already proved)
     self.trusted = set()
+    self.sort_ops = {}           # sort name -> {ast op name -> fn(engine, a, b)}
     self.vector_ops = vector_ops  # dict(add=..., smul=..., ...) for sort V arithmetic
     self._fresh = itertools.count()
     # path state
@@ -407,10 +408,10 @@ class Engine:
         out[name] = smt.model_value(model, v)
     return out
 
-  def ensure(self, name, cond, once=False):
-    """Obligation: under the current path condition, cond holds."""
+  def ensure(self, name, cond, once=False, extra=()):
+    """Obligation: under the current path condition (plus already-proved lemmas `extra`), cond holds."""
     cond = to_z3(cond) if not isinstance(cond, bool) else z3.BoolVal(cond)
-    v = smt.valid(self.axioms + self.pc, cond, timeout_ms=self.timeout_ms)
+    v = smt.valid(self.axioms + list(extra) + self.pc, cond, timeout_ms=self.timeout_ms)
     r = ObligationResult(name, v.status, seconds=v.seconds, back_end=v.back_end, detail=v.reason)
     if v.status == 'invalid':
       r.model = self.model_of_inputs(v.model) if v.model is not None else None
@@ -427,7 +428,7 @@ class Engine:
 
   def cover(self, name):
     """Vacuity guard: the current path condition must be satisfiable."""
-    v = smt.satisfiable(self.axioms + self.pc)
+    v = smt.satisfiable(self.pc)     # lemmas (axioms) are valid sentences: only the path condition can be vacuous
     ok = v.status == 'sat'
     self.results.append(ObligationResult('cover:' + name, 'valid' if ok else ('unknown' if v.status == 'unknown' else 'invalid'),
                                          detail='' if ok else f'hypotheses {v.status}: vacuous', seconds=v.seconds))
@@ -1067,6 +1068,13 @@ class Engine:
         raise PathRaise('ZeroDivisionError')
       except KeyError:
         raise Unsupported(f'operator {t.__name__}')
+    # other uninterpreted sorts (abstract arrays, ...): operations supplied by the contract
+    for x_ in (a, b):
+      if is_sym(x_) and x_.sort() != V and x_.sort().kind() == z3.Z3_UNINTERPRETED_SORT:
+        ops = self.sort_ops.get(x_.sort().name(), {})
+        if t.__name__ not in ops:
+          raise Unsupported(f'operator {t.__name__} on abstract sort {x_.sort().name()}')
+        return ops[t.__name__](self, a, b)
     # opaque vector values
     if (is_sym(a) and a.sort() == V) or (is_sym(b) and b.sort() == V):
       if t is ast.Add:
